@@ -67,6 +67,9 @@ package keeper
 
 // HandleExpiredShard: at the end height of a shard's paid period the shard is released (capacity, collateral, income stop), or,
 // if a renewal is queued, rotated into the next paid period and rescheduled.
+// The `when` condition below (the provider's TotalShardPledged covers the shard's pledge) is what keeps the end blocker from
+// panicking in Coin.Sub; it is maintained by the writers of TotalShardPledged: the clauses tagged C02.pledge.spledge
+// (ShardPledge), C02.release.spledge (ShardRelease) and C02.renew.topup (Renew) are therefore part of check C02 too.
 //@ func (Keeper) HandleExpiredShard(ctx, shardId)
 //@   requires forall c string :: has(PledgeDebt, c) ==> PledgeDebt[c].Debt.Amount >= 0
 //@   requires forall i int :: 0 <= i && i <= MaxUint64 && has(Shard, i) ==> Shard[i].Pledge.Amount >= 0
@@ -329,7 +332,7 @@ package keeper
 //@   at RenewOrder assert [C04.renew.quote] order.Amount.Denom == BondDenom && order.Operation == 3 && (order.Size_ <= MaxInt64 ==>
 //@       order.Amount.Amount == div(1000000000000 * order.Replica * order.Size_ * order.Duration, 1000000000000000000)
 //@            + (mod(1000000000000 * order.Replica * order.Size_ * order.Duration, 1000000000000000000) == 0 ? 0 : 1))
-//@   at SetPledge assert [C07.renew.topup] [C14.renew.topup] has(Pledge, shard.Sp) ==> pledge.TotalShardPledged.Amount == Pledge[shard.Sp].TotalShardPledged.Amount + extraPledge.Amount
+//@   at SetPledge assert [C07.renew.topup] [C14.renew.topup] [C02.renew.topup] has(Pledge, shard.Sp) ==> pledge.TotalShardPledged.Amount == Pledge[shard.Sp].TotalShardPledged.Amount + extraPledge.Amount
 //@       && pledge.TotalStoragePledged == Pledge[shard.Sp].TotalStoragePledged && pledge.TotalStorage == Pledge[shard.Sp].TotalStorage && pledge.UsedStorage == Pledge[shard.Sp].UsedStorage
 //@   at SetShard assert [C07.renew.shardpledge] shard.Pledge.Amount >= Shard[shard.Id].Pledge.Amount && shard.Pledge.Amount >= newPledge.Amount
 //@   at SetShard assert [C11.renew.queue] len(shard.RenewInfos) == len(Shard[shard.Id].RenewInfos) + 1 && shard.RenewInfos[len(shard.RenewInfos) - 1].Duration == msg.Proposal.Duration
